@@ -220,6 +220,62 @@ fn gen_history(rng: &mut Rng, names: &[String], max_len: usize) -> Vec<ROp> {
     h
 }
 
+/// Production constants: an archive whose uncompressed stream exceeds 4 GiB (32-bit
+/// distances overflow there), written to a scratch file (compression level 0 over zeros: ~25 MB), read
+/// with histories whose seeks jump more than 2^32 bytes forward.
+fn beyond_4gib(rep: &mut Report, rng: &mut Rng) {
+    use mla::{ArchiveReader, ArchiveWriter};
+    use std::io::Read;
+    let build_dir = std::env::var("VERIF_BUILD").unwrap_or_else(|_| "/verif/.build".into());
+    let _ = std::fs::create_dir_all(&build_dir);
+    let dir = match tempfile::Builder::new().prefix("c10-4g-").tempdir_in(&build_dir) { Ok(d) => d, Err(_) => return };
+    let path = dir.path().join("big.mla");
+    let cfg = Cfg { layers: L_COMP, level: 0, recipients: vec![], reader: 0 };
+    let a = rng.bytes(100_000, 3);
+    let b = rng.bytes(100_000, 2);
+    let pad: u64 = (2u64 << 30) + (1 << 20);
+    let case = json!({"kind":"beyond-4gib","layers":L_COMP,"level":0,"files":["a:100000","pad1:2GiB+1MiB zeros","pad2:2GiB+1MiB zeros","b:100000"]});
+    rep.eval(hash_value(&case), true);
+    rep.count("beyond-4gib");
+    {
+        let f = std::fs::File::create(&path).expect("scratch archive");
+        let mut w = match ArchiveWriter::from_config(f, cfg.writer_config()) { Ok(w) => w, Err(_) => return };
+        let ok = w.add_file("a", a.len() as u64, &a[..]).is_ok()
+            && { beat(); w.add_file("pad1", pad, std::io::repeat(0).take(pad)).is_ok() }
+            && { beat(); w.add_file("pad2", pad, std::io::repeat(0).take(pad)).is_ok() }
+            && { beat(); w.add_file("b", b.len() as u64, &b[..]).is_ok() }
+            && w.finalize().is_ok();
+        if !ok { rep.violation("oracle", "C10/open", json!({"what":"write-4gib"}), "writing an archive of more than 4 GiB fails", case.clone()); return; }
+    }
+    beat();
+    let read_b = |r: &mut ArchiveReader<std::fs::File>| -> Result<(Vec<u8>, Vec<u8>), String> {
+        let mut f = r.get_file("b".to_string()).map_err(|e| err_class(&e))?.ok_or("none")?;
+        let mut v = vec![];
+        f.data.read_to_end(&mut v).map_err(|e| io_err_class(&e))?;
+        drop(f);
+        let h = r.get_hash("b").map_err(|e| err_class(&e))?.ok_or("nohash")?;
+        Ok((v, h.to_vec()))
+    };
+    let want = (b.clone(), Sha256::digest(&b).to_vec());
+    let hists: [(&str, u8); 4] = [("b alone after opening", 0), ("b after reading part of a", 1), ("b after the hash of pad1", 2), ("b, then the hash of a, then b again", 3)];
+    for (what, k) in hists {
+        let f = std::fs::File::open(&path).expect("scratch archive");
+        let mut r = match ArchiveReader::from_config(f, cfg.reader_config()) { Ok(r) => r, Err(e) => { rep.violation("oracle", "C10/open", json!({"what":"open-4gib","class":err_class(&e)}), "an archive of more than 4 GiB does not open", case.clone()); return; } };
+        match k {
+            1 => { if let Ok(Some(mut f)) = r.get_file("a".to_string()) { let mut buf = vec![0u8; 5000]; let _ = f.data.read(&mut buf); } }
+            2 => { let _ = r.get_hash("pad1"); }
+            3 => { let _ = read_b(&mut r); let _ = r.get_hash("a"); }
+            _ => {}
+        }
+        let got = read_b(&mut r);
+        beat();
+        if got.as_ref().ok() != Some(&want) {
+            rep.violation("oracle", "C10/history", json!({"what":"beyond-4gib","layers":L_COMP}), &format!("archive of more than 4 GiB, {what}: {}", match &got { Ok((v, _)) => format!("{} bytes / hash differ from the file alone", v.len()), Err(e) => format!("fails: {e}") }), case.clone());
+            return;
+        }
+    }
+}
+
 pub fn run(ctx: &Ctx) -> Report {
     let mut rep = Report::new("C10");
     let mut model = Model::spawn();
@@ -232,6 +288,10 @@ pub fn run(ctx: &Ctx) -> Report {
         let hist: Vec<ROp> = c["history"].as_array().unwrap().iter().map(ROp::from_json).collect();
         check(&mut rep, &mut model, &cfg, &ops, &hist);
         return rep;
+    }
+    if !CONSTS.scaled || std::env::var("VERIF_ONLY_BIG").is_ok() {
+        beyond_4gib(&mut rep, &mut rng);
+        if std::env::var("VERIF_ONLY_BIG").is_ok() || rep.full() { return rep; }
     }
     // alignment cases: the first compressed block ends 1 / 2 / 0 bytes after an encryption chunk boundary;
     // file "a" is read exactly up to the end of that block, abandoned, and the next block is entered by
